@@ -45,6 +45,8 @@ def run(repo: Repo, chk: Check):
     chk.rule("R01.g", "the opcode column of the operator tables is the documented instruction of the operator", floor=20)
     chk.rule("R01.h", "operands of non-commutative constructs are the compiled sub-expressions in source order: (left,right), "
                       "(target,value), (0,operand), select(test,body,orelse), range(start,end,step)", floor=10)
+    chk.rule("R01.l", "device, slot, batch and stack accesses emit their operands in the order the instruction takes them (device/hash, "
+                      "name hash, slot index, type, batch mode, address, value; shared with R09.e)", floor=14)
     chk.rule("R01.k", "a return omits the jump to the function's end label only when it is the last statement of the function body "
                       "(inside a loop or branch it would fall onto the loop's back jump / the ra logic would miss the exit; shared with R06.h)", floor=1)
     chk.rule("R01.j", "an expression folded at compile time is evaluated with the operator its table row names and with the "
@@ -60,6 +62,8 @@ def run(repo: Repo, chk: Check):
     chk.guarded(r01g, repo, chk)
     chk.guarded(r01h, repo, chk)
     chk.guarded(r01i, repo, chk)
+    from .c09 import r09e
+    chk.guarded(r09e, repo, chk, "R01.l")
     from .c06 import r06h
     chk.guarded(r06h, repo, chk, "R01.k")
     from .c03 import fold_table_rows
